@@ -203,6 +203,7 @@ func (m *RWMutex) TryLock() bool {
 		return false
 	}
 	m.writer = true
+	raceAcquire(m)
 	return true
 }
 
@@ -216,6 +217,7 @@ func (m *RWMutex) TryRLock() bool {
 		return false
 	}
 	m.readers++
+	raceAcquire(m)
 	return true
 }
 
@@ -349,32 +351,52 @@ type Once struct {
 }
 
 //go:norace
+func (o *Once) notRunning() bool { return !o.running }
+
+//go:norace
+func (o *Once) finish() {
+	o.running = false
+	o.done = true
+	raceRelease(o)
+}
+
+//go:norace
+func (o *Once) finishReal() {
+	o.done = true
+}
+
+//go:norace
 func (o *Once) Do(f func()) {
 	if zsim.S == nil {
 		if o.done {
 			return
 		}
-		o.real.Do(func() { f(); o.done = true })
+		o.real.Do(func() { defer o.finishReal(); f() })
 		return
 	}
 	if !zsim.Dying() {
 		zsim.Yield("once.Do")
 	}
-	if o.done {
-		return
-	}
 	if o.gen != zsim.S.Gen {
+		// every run is a process of its own: what a package-level Once started in an
+		// earlier run (a lazily started worker goroutine) is gone
 		o.gen = zsim.S.Gen
 		o.running = false
-	}
-	for o.running {
-		zsim.Block("once", func() bool { return !o.running })
+		o.done = false
 	}
 	if o.done {
+		raceAcquire(o)
+		return
+	}
+	for o.running {
+		zsim.Block("once", o.notRunning)
+	}
+	if o.done {
+		raceAcquire(o)
 		return
 	}
 	o.running = true
-	defer func() { o.running = false; o.done = true }()
+	defer o.finish()
 	f()
 }
 
@@ -425,6 +447,9 @@ func (w *WaitGroup) Add(d int) {
 	if !zsim.Dying() {
 		zsim.Yield("wg.Add")
 	}
+	if d < 0 {
+		raceRelease(w)
+	}
 	w.n += d
 	if w.n < 0 && !zsim.Dying() {
 		panic("sync: negative WaitGroup counter")
@@ -449,9 +474,13 @@ func (w *WaitGroup) Wait() {
 	}
 	zsim.Yield("wg.Wait")
 	for w.n > 0 {
-		zsim.Block("waitgroup", func() bool { return w.n <= 0 })
+		zsim.Block("waitgroup", w.zero)
 	}
+	raceAcquire(w)
 }
+
+//go:norace
+func (w *WaitGroup) zero() bool { return w.n <= 0 }
 
 //go:norace
 func itoa(n int) string {
